@@ -2,7 +2,13 @@
 from __future__ import annotations
 
 import ast
+import bisect
+import collections
+import enum
+import functools
+import heapq
 import itertools
+import math
 import operator
 import re
 
@@ -76,6 +82,11 @@ def boolean_context_atoms(func):
 #   (1) the stubs the rule supplies (the two regex primitives `components` / `is_version_identifier`, git.tags) — reference semantics, recorded in a trace,
 #   (2) a whitelist of side-effect free builtins and str / list / dict / set methods,
 #   (3) functions and classes DEFINED IN THE ANALYSED MODULE, which are evaluated in turn (an extracted helper is followed, arguments bound to parameters).
+#   (4) record / constant TYPES of the standard library the module derives its own data model from, recognised through the module's import table (never by the spelling of the
+#       local name): `class X(typing.NamedTuple)` / `collections.namedtuple(...)` become the real named tuple type (an instance IS a tuple: it unpacks, indexes and compares
+#       like the plain pair), `class K(enum.Enum / StrEnum / IntEnum / (str, Enum))` becomes the real enumeration (members compare by identity, a plain member is NOT equal
+#       to its raw value; the literal that N9 put in place of `K.MEMBER` is mapped back to the member), `@dataclasses.dataclass` classes get the generated __init__
+#       (fields in declaration order, defaults / default_factory, __post_init__, frozen); plus a whitelist of pure helpers of functools / operator / itertools / bisect / heapq / math.
 # No function of the repository is ever called. Anything outside this fragment raises CannotEval -> `chk.unknown` (shape not recognised), never a verdict.
 
 
@@ -84,6 +95,13 @@ class _Opaque:
 
     def __repr__(self):
         return "<not modelled>"
+
+
+class _Caught(_Opaque):
+    """the exception object bound by `except X as e`: not inspected, but `raise e` re-raises what was caught."""
+
+    def __init__(self, raised):
+        self.raised = raised
 
 
 OPAQUE = _Opaque()
@@ -160,6 +178,29 @@ _BIN = {ast.Add: operator.add, ast.Sub: operator.sub, ast.Mult: operator.mul, as
 _OK_DECORATORS = {"property", "staticmethod", "classmethod", "functools.lru_cache", "functools.cache", "lru_cache", "cache", "functools.cached_property", "cached_property",
                   "functools.total_ordering", "total_ordering"}
 _SCOPES = (ast.FunctionDef, ast.AsyncFunctionDef, ast.Lambda, ast.ClassDef)
+_OK_CLASS_DECORATORS = {"functools.total_ordering", "enum.unique", "dataclasses.dataclass"}
+_INERT_BASES = {"abc.ABC", "typing.Generic", "typing.Protocol"}  # bases that add no member an evaluated expression could reach
+_NO_BRIDGE = {"__new__", "__init__", "__getattribute__", "__getattr__", "__setattr__", "__delattr__", "__init_subclass__", "__class_getitem__", "__set_name__", "__missing__",
+              "_generate_next_value_"}
+_NAMEDTUPLE_BASES = {"typing.NamedTuple", "typing_extensions.NamedTuple"}
+_ENUM_BASES = {"enum.Enum": enum.Enum, "enum.IntEnum": enum.IntEnum, "enum.StrEnum": getattr(enum, "StrEnum", None), "enum.Flag": enum.Flag, "enum.IntFlag": enum.IntFlag}
+# pure helpers of the standard library, addressed by their QUALIFIED name (the local spelling is resolved through the module's import table)
+_STDLIB = {"functools.partial": functools.partial, "functools.reduce": functools.reduce, "operator.itemgetter": operator.itemgetter,
+           "itertools.chain": itertools.chain, "itertools.chain.from_iterable": itertools.chain.from_iterable, "itertools.takewhile": itertools.takewhile,
+           "itertools.dropwhile": itertools.dropwhile, "itertools.islice": itertools.islice, "itertools.filterfalse": itertools.filterfalse, "itertools.starmap": itertools.starmap,
+           "itertools.accumulate": itertools.accumulate, "itertools.zip_longest": itertools.zip_longest, "itertools.groupby": itertools.groupby, "itertools.product": itertools.product,
+           "bisect.bisect": bisect.bisect, "bisect.bisect_left": bisect.bisect_left, "bisect.bisect_right": bisect.bisect_right, "heapq.nlargest": heapq.nlargest,
+           "heapq.nsmallest": heapq.nsmallest, "math.inf": math.inf, "math.floor": math.floor, "math.ceil": math.ceil, "math.isinf": math.isinf, "sys.maxsize": __import__("sys").maxsize}
+_STDLIB.update({f"operator.{n}": getattr(operator, n) for n in ("eq", "ne", "lt", "le", "gt", "ge", "add", "sub", "mul", "neg", "not_", "truth", "is_", "is_not", "contains", "getitem")})
+_IMMUTABLE = (str, bytes, int, float, tuple, frozenset)
+
+
+def _is_dunder(name):
+    return name.startswith("__") and name.endswith("__")
+
+
+def _is_docstring(st):
+    return isinstance(st, ast.Expr) and isinstance(st.value, ast.Constant) and isinstance(st.value.value, str)
 
 
 def _own_nodes(func):
@@ -173,9 +214,10 @@ def _own_nodes(func):
 
 
 class Interp:
-    def __init__(self, mod, stubs=None, budget=60000):
+    def __init__(self, mod, stubs=None, budget=60000, hierarchy=None):
         self.mod = mod
         self.stubs = dict(stubs or {})
+        self.hierarchy = dict(hierarchy or {})  # exception classes of a collaborating module (name -> ClassDef): only their base chains are read
         self.budget = budget
         self.funcs = {n.name: n for n in mod.tree.body if isinstance(n, ast.FunctionDef)}
         self.classes = {n.name: n for n in mod.tree.body if isinstance(n, ast.ClassDef)}
@@ -184,6 +226,11 @@ class Interp:
         self.yields = []
         self.handling = []
         self.depth = 0
+        self._types = {}  # id(ClassDef | Call node) -> the real named tuple / enumeration type it denotes (None: an ordinary class)
+        self._nodes = {}  # real type -> the ClassDef it was built from (plain methods / properties are looked up there)
+        self._raw = None
+        self._raw_attrs = None
+        self.enum_names = {n for n, c in self.classes.items() if any(self.qualified(b) in _ENUM_BASES for b in c.bases)}
 
     # -- plumbing ---------------------------------------------------------------------------------------------------------------------------------
     def tick(self):
@@ -191,13 +238,246 @@ class Interp:
         if self.budget < 0:
             raise CannotEval("step budget exhausted")
 
-    _OBJECT_SAFE = (list, tuple, len, enumerate, zip, reversed, iter, next, map, filter, any, all)
+    def qualified(self, node, env=None):
+        """dotted name of an expression with its head resolved through the module's import table (`NamedTuple` -> `typing.NamedTuple`, `t.NamedTuple` after `import typing as t`
+        likewise); None when the head is not an imported name or is shadowed by a local / a definition of the module."""
+        d = dotted(node)
+        if not d:
+            return None
+        head, _, rest = d.partition(".")
+        if (env is not None and head in env) or head in self.funcs or head in self.classes or head in self.consts:
+            return None
+        base = self.mod.imports.get(head)
+        if base is None:
+            return None
+        return base + ("." + rest if rest else "")
+
+    # -- the module's data model: named tuples, enumerations, dataclasses ----------------------------------------------------------------------------
+    def raw_tree(self):
+        """the module parsed WITHOUT the parse-time normalisations: only field declarations (`x: T = default`, which N7 turns into a plain assignment) and the expression N9
+        replaced by a literal are read from it; positions agree with the normalised tree."""
+        if self._raw is None:
+            self._raw = ast.parse(self.mod.text)
+        return self._raw
+
+    def raw_class(self, cls):
+        for n in self.raw_tree().body:
+            if isinstance(n, ast.ClassDef) and n.name == cls.name and n.lineno == cls.lineno:
+                return n
+        raise CannotEval(f"class {cls.name}: declaration not found in the module text")
+
+    def class_decorators(self, cls):
+        """qualified names of the class decorators (CannotEval for one whose effect is not modelled)."""
+        out = {}
+        for d in cls.decorator_list:
+            q = self.qualified(d.func if isinstance(d, ast.Call) else d)
+            if q not in _OK_CLASS_DECORATORS:
+                raise CannotEval(f"class {cls.name}: decorator {short(d, 40)}")
+            out[q] = d
+        return out
+
+    def record_fields(self, cls, what):
+        """(name, default expression | None) of the annotated fields of a NamedTuple / dataclass body, in declaration order."""
+        fields = []
+        for st in self.raw_class(cls).body:
+            if _is_docstring(st) or isinstance(st, ast.Pass) or isinstance(st, ast.FunctionDef):
+                continue
+            if isinstance(st, ast.AnnAssign) and isinstance(st.target, ast.Name) and st.simple:
+                if any(isinstance(x, (ast.Name, ast.Attribute)) and last_attr(x) in ("ClassVar", "InitVar", "KW_ONLY") for x in ast.walk(st.annotation)) \
+                        or (isinstance(st.annotation, ast.Constant) and isinstance(st.annotation.value, str) and re.search(r"ClassVar|InitVar|KW_ONLY", st.annotation.value)):
+                    raise CannotEval(f"{what} {cls.name}: field {st.target.id} is a ClassVar / InitVar / KW_ONLY")
+                fields.append((st.target.id, st.value))
+                continue
+            raise CannotEval(f"{what} {cls.name}: {type(st).__name__} at line {st.lineno} of the class body is not modelled")
+        return fields
+
+    def real_type(self, cls):
+        """the real Python type an analysed class denotes when it derives from typing.NamedTuple or from an enumeration base (resolved through the import table); None for
+        an ordinary class (evaluated as _Cls / _Obj)."""
+        if id(cls) in self._types:
+            return self._types[id(cls)]
+        quals = [self.qualified(b) for b in cls.bases]
+        t = None
+        if any(q in _NAMEDTUPLE_BASES for q in quals):
+            if len(cls.bases) != 1 or cls.keywords:
+                raise CannotEval(f"NamedTuple class {cls.name} with further bases")
+            self.class_decorators(cls)
+            if cls.decorator_list:
+                raise CannotEval(f"NamedTuple class {cls.name} is decorated")
+            fields = self.record_fields(cls, "NamedTuple class")
+            defaults = [self.ev(d, {}) for _n, d in fields if d is not None]
+            if not all(_plain(d) for d in defaults) or any(d is None and any(x is not None for _m, x in fields[:i]) for i, (_n, d) in enumerate(fields)):
+                raise CannotEval(f"NamedTuple class {cls.name}: defaults")
+            try:
+                t = collections.namedtuple(cls.name, [n for n, _d in fields], defaults=defaults or None)
+                special = self.special_methods(cls)
+                if special:
+                    t = type(cls.name, (t,), dict(special, __slots__=()))
+            except CannotEval:
+                raise
+            except Exception as x:  # noqa: BLE001
+                raise CannotEval(f"NamedTuple class {cls.name}: {x}")
+        elif any(q in _ENUM_BASES for q in quals):
+            base, mixin = None, None
+            for b, q in zip(cls.bases, quals):
+                if q in _ENUM_BASES and _ENUM_BASES[q] is not None and base is None:
+                    base = _ENUM_BASES[q]
+                elif isinstance(b, ast.Name) and b.id in ("str", "int") and q is None and b.id not in self.classes and b.id not in self.funcs and b.id not in self.consts and mixin is None:
+                    mixin = _TYPE_NAMES[b.id]
+                else:
+                    raise CannotEval(f"enumeration {cls.name}: base {u(b)}")
+            if base is None or cls.keywords or set(self.class_decorators(cls)) - {"enum.unique"}:
+                raise CannotEval(f"enumeration {cls.name}: bases / decorators")
+            members = []
+            for st in cls.body:
+                if _is_docstring(st) or isinstance(st, ast.Pass) or isinstance(st, ast.FunctionDef):
+                    continue
+                if isinstance(st, ast.Assign) and len(st.targets) == 1 and isinstance(st.targets[0], ast.Name) and not st.targets[0].id.startswith("_"):
+                    v = self.ev(st.value, {})
+                    if not _plain(v) or callable(v):
+                        raise CannotEval(f"enumeration {cls.name}: value of {st.targets[0].id}")
+                    members.append((st.targets[0].id, v))
+                    continue
+                raise CannotEval(f"enumeration {cls.name}: {type(st).__name__} at line {st.lineno} of the class body is not modelled")
+            try:
+                # what the class statement does: the members (and the special methods, bridged to the evaluator) go through the enumeration's own namespace and metaclass
+                bases_ = (mixin, base) if mixin is not None else (base,)
+                ns = type(base).__prepare__(cls.name, bases_)
+                for k, v in members:
+                    ns[k] = v
+                for k, v in self.special_methods(cls).items():
+                    ns[k] = v
+                t = type(base)(cls.name, bases_, ns)
+            except CannotEval:
+                raise
+            except Exception as x:  # noqa: BLE001
+                raise CannotEval(f"enumeration {cls.name}: {x}")
+        self._types[id(cls)] = t
+        if t is not None:
+            self._nodes[t] = cls
+        return t
+
+    def special_methods(self, cls):
+        """the special methods (__str__, __eq__, __lt__, ...) a record / enumeration class defines, as real methods that hand over to the evaluator: Python's own protocols
+        (str(), ==, sorted, in) then behave on the real type as they do on the analysed class."""
+        out = {}
+        for st in cls.body:
+            if isinstance(st, ast.FunctionDef) and (_is_dunder(st.name) or st.name in _NO_BRIDGE):
+                if st.name in _NO_BRIDGE or st.decorator_list:
+                    raise CannotEval(f"class {cls.name} defines {st.name}")
+
+                def bridge(self_, *a, _m=st, **k):
+                    return self.call_function(_m, list(a), k, bound=self_)
+
+                out[st.name] = bridge
+        return out
+
+    def functional_type(self, e, q, env):
+        """`collections.namedtuple("X", fields, ...)` / `typing.NamedTuple("X", [(name, type), ...])`: the real named tuple type (one per call site, as at import time)."""
+        if id(e) not in self._types:
+            if q == "collections.namedtuple":
+                args, kwargs = self.call_args(e, env)
+                if not all(_plain(a) for a in list(args) + list(kwargs.values())) or set(kwargs) - {"defaults", "rename", "module", "typename", "field_names"}:
+                    raise CannotEval(f"call {short(e, 60)}")
+                t = self.apply(collections.namedtuple, args, kwargs, short(e, 60))
+            else:
+                if len(e.args) != 2 or e.keywords or not isinstance(e.args[1], (ast.List, ast.Tuple)) or not all(
+                        isinstance(x, ast.Tuple) and len(x.elts) == 2 and isinstance(x.elts[0], ast.Constant) and isinstance(x.elts[0].value, str) for x in e.args[1].elts):
+                    raise CannotEval(f"call {short(e, 60)}")
+                t = self.apply(collections.namedtuple, [self.ev(e.args[0], env), [x.elts[0].value for x in e.args[1].elts]], what=short(e, 60))
+            self._types[id(e)] = t
+        return self._types[id(e)]
+
+    def dataclass_of(self, cls):
+        """the `@dataclasses.dataclass` decorator of the class (resolved through the import table), None for an ordinary class."""
+        return self.class_decorators(cls).get("dataclasses.dataclass")
+
+    def instantiate_dataclass(self, cls, dec, args, kwargs):
+        """the generated __init__: fields in declaration order, positional or keyword, defaults / default_factory evaluated per call (they are immutable or fresh), then __post_init__."""
+        options = {k.arg: k.value for k in dec.keywords} if isinstance(dec, ast.Call) else {}
+        if (isinstance(dec, ast.Call) and dec.args) or None in options or any(not isinstance(v, ast.Constant) for v in options.values()) \
+                or set(options) - {"frozen", "slots", "eq", "order", "repr", "unsafe_hash", "match_args", "init", "kw_only"} \
+                or (options.get("init") is not None and options["init"].value is not True) or (options.get("kw_only") is not None and options["kw_only"].value is not False):
+            raise CannotEval(f"dataclass {cls.name}: options {short(dec, 50)}")
+        if [b for b in cls.bases if dotted(b) != "object"] or self.member(cls, "__init__") is not None:
+            raise CannotEval(f"dataclass {cls.name} with bases / its own __init__")
+        o = _Obj(cls)
+        fields = self.record_fields(cls, "dataclass")
+        pos, kw = list(args), dict(kwargs or {})
+        if len(pos) > len(fields):
+            raise _Raised(f"TypeError: {cls.name}() takes {len(fields)} positional arguments but {len(pos)} were given")
+        for i, (name, default) in enumerate(fields):
+            factory = None
+            if isinstance(default, ast.Call) and self.qualified(default.func) == "dataclasses.field":
+                fk = {k.arg: k.value for k in default.keywords}
+                if default.args or set(fk) - {"default", "default_factory", "repr", "compare", "hash", "metadata"}:
+                    raise CannotEval(f"dataclass {cls.name}: {short(default, 50)}")
+                default, factory = fk.get("default"), fk.get("default_factory")
+            if i < len(pos):
+                if name in kw:
+                    raise _Raised(f"TypeError: {cls.name}() got multiple values for argument {name!r}")
+                v = pos[i]
+            elif name in kw:
+                v = kw.pop(name)
+            elif default is not None:
+                v = self.ev(default, {})
+            elif factory is not None:
+                v = self.apply(self.ev(factory, {}), [], what=short(factory, 40))
+            else:
+                raise _Raised(f"TypeError: {cls.name}() missing required argument {name!r}")
+            o.fields[name] = v
+        if kw:
+            raise _Raised(f"TypeError: {cls.name}() got an unexpected keyword argument {sorted(kw)[0]!r}")
+        o.frozen = options.get("frozen") is not None and options["frozen"].value is True
+        post = self.member(cls, "__post_init__")
+        if isinstance(post, ast.FunctionDef):
+            self.call_function(post, [], {}, bound=o)
+        return o
+
+    def raw_constant(self, e):
+        """N9 replaced `Kind.MEMBER` (a CONSTANT_CASE class constant with a literal value) by the literal; for a member of an ENUMERATION the member is not its value, so the
+        original expression is recovered from the un-normalised tree by its position. None for every other propagated constant."""
+        if self._raw_attrs is None:
+            self._raw_attrs = {(n.lineno, n.col_offset, n.end_lineno, n.end_col_offset): n for n in ast.walk(self.raw_tree()) if isinstance(n, ast.Attribute)}
+        raw = self._raw_attrs.get((getattr(e, "lineno", None), getattr(e, "col_offset", None), getattr(e, "end_lineno", None), getattr(e, "end_col_offset", None)))
+        if raw is not None and isinstance(raw.value, ast.Name) and raw.value.id in self.enum_names:
+            return raw
+        return None
+
+    def identical(self, a, b, an, bn):
+        """`a is b`. Identity of two EQUAL immutable values held in different objects is an implementation detail of the interpreter (interning, constant merging) unless one
+        side is a named constant (N9 put its literal there: every use of the constant is the same object)."""
+        if a is b:
+            return True
+        if isinstance(a, _IMMUTABLE) and isinstance(b, _IMMUTABLE) and not isinstance(a, (bool, enum.Enum)) and not isinstance(b, (bool, enum.Enum)) and type(a) is type(b) \
+                and _plain(a) and _plain(b) and a == b:
+            if getattr(an, "_from_constant", False) or getattr(bn, "_from_constant", False):
+                return True
+            raise CannotEval("identity of two equal immutable values")
+        return False
+
+    def bound_member(self, m, recv, owner):
+        """attribute access that finds the function `m` in the class of `recv`: property evaluated, static / class / instance method bound."""
+        decs = decorator_names(m)
+        bad = [d for d in decs if d not in _OK_DECORATORS]
+        if bad:
+            raise CannotEval(f"{m.name}: decorator {bad[0]}")
+        if any(d.split(".")[-1] in ("property", "cached_property") for d in decs):
+            return self.call_function(m, [], {}, bound=recv)
+        if "staticmethod" in decs:
+            return self.closure(m)
+        if "classmethod" in decs:
+            return self.closure(m, bound=owner)
+        return self.closure(m, bound=recv)
+
+    _OBJECT_SAFE = (list, tuple, len, enumerate, zip, reversed, iter, next, map, filter, any, all, functools.partial, functools.reduce, itertools.chain,
+                    _STDLIB["itertools.chain.from_iterable"], itertools.islice, itertools.takewhile, itertools.dropwhile, itertools.filterfalse, itertools.starmap, itertools.zip_longest)
     _OBJECT_SAFE_KEYED = (sorted, max, min)
     _OBJECT_SAFE_METHODS = {list: {"append", "extend", "insert", "pop", "copy", "reverse", "clear"}, dict: {"get", "setdefault", "pop", "update", "items", "values", "keys", "copy"}}
 
     def object_safe(self, fn, args, kwargs):
         """the builtin / container method does not look INTO its arguments (no ==, hash, str, ordering), so it behaves on an instance of an evaluated class as it does in Python."""
-        if any(fn is f for f in self._OBJECT_SAFE):
+        if any(fn is f for f in self._OBJECT_SAFE) or isinstance(fn, functools.partial):
             return True
         if any(fn is f for f in self._OBJECT_SAFE_KEYED):
             return "key" in kwargs
@@ -209,7 +489,8 @@ class Interp:
 
     def apply(self, fn, args, kwargs=None, what=""):
         kwargs = kwargs or {}
-        if not getattr(fn, "_interp", False) and not all(_plain(a) or callable(a) for a in list(args) + list(kwargs.values())) and not self.object_safe(fn, args, kwargs):
+        interp = getattr(fn, "_interp", False) or (isinstance(fn, functools.partial) and getattr(fn.func, "_interp", False))
+        if not interp and not all(_plain(a) or callable(a) for a in list(args) + list(kwargs.values())) and not self.object_safe(fn, args, kwargs):
             raise CannotEval(f"{what}: a builtin applied to a value that is not modelled")
         try:
             return fn(*args, **kwargs)
@@ -254,7 +535,7 @@ class Interp:
         """every base is a class of this module (or object): the member table is complete."""
         for b in cls.bases:
             bn = dotted(b)
-            if bn == "object":
+            if bn == "object" or self.qualified(b.value if isinstance(b, ast.Subscript) else b) in _INERT_BASES:
                 continue
             if bn not in self.classes or bn in seen or not self.closed_class(self.classes[bn], seen + (bn,)):
                 return False
@@ -305,12 +586,12 @@ class Interp:
             env[a.kwarg.arg] = {}
         return env, names
 
-    def call_function(self, func, args, kwargs=None, bound=_MISSING, outer=None):
+    def call_function(self, func, args, kwargs=None, bound=_MISSING, outer=None, undecorated=False):
         kwargs = kwargs or {}
         if isinstance(func, ast.AsyncFunctionDef):
             raise CannotEval(f"{func.name}: coroutine")
         bad = [d for d in decorator_names(func) if d not in _OK_DECORATORS]
-        if bad:
+        if bad and not undecorated:
             raise CannotEval(f"{func.name}: decorator {bad[0]}")
         self.depth += 1
         try:
@@ -339,12 +620,25 @@ class Interp:
         finally:
             self.depth -= 1
 
-    def closure(self, func, bound=_MISSING, outer=None):
+    def closure(self, func, bound=_MISSING, outer=None, undecorated=False):
         def f(*a, **k):
-            return self.call_function(func, list(a), k, bound, outer)
+            return self.call_function(func, list(a), k, bound, outer, undecorated)
 
         f._interp = True  # type: ignore[attr-defined]
         return f
+
+    def function_value(self, func):
+        """the value a module-level function name is bound to: the function itself, or - for decorators DEFINED IN THE MODULE (`@probed`) - what they return for it (they are
+        evaluated like every other function of the module; functools.lru_cache & co are transparent for a pure function)."""
+        own = [d for d in func.decorator_list if (dotted(d.func if isinstance(d, ast.Call) else d) or "") not in _OK_DECORATORS]
+        if not own:
+            return self.closure(func)
+        v = self.closure(func, undecorated=True)
+        for d in reversed(own):
+            v = self.apply(self.ev(d, {}), [v], what=f"@{short(d, 40)}")
+            if not callable(v):
+                raise CannotEval(f"{func.name}: decorator {short(d, 40)} does not return a function")
+        return v
 
     def call_stub(self, name, args, kwargs):
         f = self.funcs.get(name)
@@ -355,8 +649,14 @@ class Interp:
         return self.stubs[name](*args, **kwargs)
 
     def instantiate(self, cls, args, kwargs=None):
+        rt = self.real_type(cls)
+        if rt is not None:
+            return self.apply(rt, args, kwargs or {}, what=f"{cls.name}(...)")
         if not self.closed_class(cls):
             raise CannotEval(f"class {cls.name} has a base outside the module")
+        dec = self.dataclass_of(cls)
+        if dec is not None:
+            return self.instantiate_dataclass(cls, dec, args, kwargs)
         o = _Obj(cls)
         init = self.member(cls, "__init__")
         if isinstance(init, ast.FunctionDef):
@@ -369,19 +669,12 @@ class Interp:
         if isinstance(recv, _Obj):
             if attr in recv.fields:
                 v = recv.fields[attr]
-                if v is OPAQUE:
+                if isinstance(v, _Opaque):
                     raise CannotEval(f"attribute {attr} is not modelled")
                 return v
             m = self.member(recv.cls, attr)
             if isinstance(m, ast.FunctionDef):
-                decs = decorator_names(m)
-                if any(d.split(".")[-1] in ("property", "cached_property") for d in decs):
-                    return self.call_function(m, [], {}, bound=recv)
-                if "staticmethod" in decs:
-                    return self.closure(m)
-                if "classmethod" in decs:
-                    return self.closure(m, bound=_Cls(recv.cls))
-                return self.closure(m, bound=recv)
+                return self.bound_member(m, recv, _Cls(recv.cls))
             if isinstance(m, ast.Assign):
                 return self.ev(m.value, {})
             raise CannotEval(f"attribute {attr} of a {recv.cls.name} object")
@@ -399,18 +692,50 @@ class Interp:
             if attr in recv.fields:
                 return recv.fields[attr]
             raise CannotEval(f"attribute {attr}")
+        if isinstance(recv, type):
+            # a named tuple / enumeration type of the module's data model
+            if issubclass(recv, enum.Enum) and attr in recv.__members__:
+                return recv.__members__[attr]
+            if issubclass(recv, tuple) and attr == "_fields" and hasattr(recv, "_fields"):
+                return recv._fields
+            m = self.member(self._nodes[recv], attr) if recv in self._nodes else None
+            if isinstance(m, ast.FunctionDef):
+                decs = decorator_names(m)
+                return self.closure(m, bound=recv) if "classmethod" in decs else self.closure(m)
+            raise CannotEval(f"attribute {attr} of the type {recv.__name__}")
+        if isinstance(recv, enum.Enum) or (isinstance(recv, tuple) and hasattr(type(recv), "_fields")):
+            t = type(recv)
+            if isinstance(recv, enum.Enum) and attr in ("value", "name"):
+                return getattr(recv, attr)
+            if isinstance(recv, tuple) and (attr in t._fields or attr in ("_fields", "_replace", "_asdict", "index", "count")):
+                return getattr(recv, attr)
+            m = self.member(self._nodes[t], attr) if t in self._nodes else None
+            if isinstance(m, ast.FunctionDef):
+                return self.bound_member(m, recv, t)
+            if isinstance(recv, str) and attr in _METHODS[str]:
+                return getattr(recv, attr)
+            raise CannotEval(f"attribute {attr} of a {t.__name__}")
         t = type(recv)
         if t in _METHODS and attr in _METHODS[t]:
             return getattr(recv, attr)
         raise CannotEval(f"attribute {attr} of a {t.__name__}")
 
-    def call_args(self, e, env):
+    def call_args(self, e, env, lenient=False):
+        """evaluated arguments; lenient (for the reference stubs only): an argument the evaluator does not model (`level=logging.DEBUG`) is handed over as OPAQUE."""
+        def one(x):
+            try:
+                return self.ev(x, env)
+            except CannotEval:
+                if not lenient or self.touches_tracked(x, env) or any(isinstance(n, (ast.NamedExpr, ast.Yield, ast.YieldFrom)) for n in ast.walk(x)):
+                    raise
+                return OPAQUE
+
         args = []
         for a in e.args:
             if isinstance(a, ast.Starred):
                 args.extend(self.iterate(self.ev(a.value, env), "*args"))
             else:
-                args.append(self.ev(a, env))
+                args.append(one(a))
         kwargs = {}
         for k in e.keywords:
             if k.arg is None:
@@ -419,7 +744,7 @@ class Interp:
                     raise CannotEval("** of a non-dict")
                 kwargs.update(v)
             else:
-                kwargs[k.arg] = self.ev(k.value, env)
+                kwargs[k.arg] = one(k.value)
         return args, kwargs
 
     def call(self, e, env):
@@ -433,6 +758,10 @@ class Interp:
                 tn = dotted(t)
                 if tn in _TYPE_NAMES:
                     res = res or (not isinstance(v, (_Obj, _Cls)) and isinstance(v, _TYPE_NAMES[tn]))
+                elif tn in self.classes and self.real_type(self.classes[tn]) is not None:
+                    res = res or isinstance(v, self.real_type(self.classes[tn]))
+                elif tn in self.consts and tn not in env and isinstance(self.ev(t, env), type):
+                    res = res or isinstance(v, self.ev(t, env))
                 elif tn in self.classes:
                     res = res or (isinstance(v, _Obj) and v.cls is self.classes[tn])
                     if isinstance(v, _Obj) and v.cls is not self.classes[tn] and v.cls.bases:
@@ -453,20 +782,39 @@ class Interp:
             if len(e.args) == 3:
                 return self.ev(e.args[2], env)
             raise _Raised(f"AttributeError: {obj.cls.name} object has no attribute {name!r}", "AttributeError")
+        q = self.qualified(f, env)
+        if q == "collections.namedtuple" or q in _NAMEDTUPLE_BASES:
+            return self.functional_type(e, q, env)
+        if q == "enum.auto" and not e.args and not e.keywords:
+            return enum.auto()
+        if q == "operator.attrgetter" and e.args and not e.keywords:
+            names = [self.ev(a, env) for a in e.args]
+            if not all(isinstance(n, str) for n in names):
+                raise CannotEval(what)
+
+            def getter(o):
+                vals = [functools.reduce(self.getattr_, n.split("."), o) for n in names]
+                return vals[0] if len(vals) == 1 else tuple(vals)
+
+            getter._interp = True  # type: ignore[attr-defined]
+            return getter
+        if q in _STDLIB and callable(_STDLIB[q]):
+            args, kwargs = self.call_args(e, env)
+            return self.apply(_STDLIB[q], args, kwargs, what)
         if isinstance(f, ast.Attribute):
             try:
                 recv = self.ev(f.value, env)
             except CannotEval:
                 # the receiver is not a value of the evaluated program (an imported module, a logger): the callee is known by its name only
                 if f.attr in self.stubs:
-                    args, kwargs = self.call_args(e, env)
+                    args, kwargs = self.call_args(e, env, lenient=True)
                     return self.call_stub(f.attr, args, kwargs)
                 raise CannotEval(f"call {what}")
             callee = self.getattr_(recv, f.attr)
             args, kwargs = self.call_args(e, env)
             return self.apply(callee, args, kwargs, what)
         if isinstance(f, ast.Name) and f.id not in env and f.id in self.stubs:
-            args, kwargs = self.call_args(e, env)
+            args, kwargs = self.call_args(e, env, lenient=True)
             return self.call_stub(f.id, args, kwargs)
         callee = self.ev(f, env)
         args, kwargs = self.call_args(e, env)
@@ -479,12 +827,16 @@ class Interp:
     # -- expressions --------------------------------------------------------------------------------------------------------------------------------
     def ev(self, e, env):
         self.tick()
+        if self.enum_names and getattr(e, "_from_constant", False):
+            raw = self.raw_constant(e)
+            if raw is not None:
+                return self.ev(raw, env)
         if isinstance(e, ast.Constant):
             return e.value
         if isinstance(e, ast.Name):
             if e.id in env:
                 v = env[e.id]
-                if v is OPAQUE:
+                if isinstance(v, _Opaque):
                     raise CannotEval(f"the value of {e.id} is not modelled")
                 return v
             if e.id in self.stubs:
@@ -494,9 +846,10 @@ class Interp:
                 stub._interp = True  # type: ignore[attr-defined]
                 return stub
             if e.id in self.funcs:
-                return self.closure(self.funcs[e.id])
+                return self.function_value(self.funcs[e.id])
             if e.id in self.classes:
-                return _Cls(self.classes[e.id])
+                rt = self.real_type(self.classes[e.id])
+                return rt if rt is not None else _Cls(self.classes[e.id])
             if e.id in self.consts:
                 if e.id in self._const_busy:
                     raise CannotEval(f"recursive constant {e.id}")
@@ -507,8 +860,12 @@ class Interp:
                     self._const_busy.discard(e.id)
             if e.id in _BUILTINS:
                 return _BUILTINS[e.id]
+            if self.qualified(e, env) in _STDLIB:
+                return _STDLIB[self.qualified(e, env)]
             raise CannotEval(f"unbound name {e.id}")
         if isinstance(e, ast.Attribute):
+            if self.qualified(e, env) in _STDLIB:
+                return _STDLIB[self.qualified(e, env)]
             return self.getattr_(self.ev(e.value, env), e.attr)
         if isinstance(e, ast.Call):
             return self.call(e, env)
@@ -525,14 +882,19 @@ class Interp:
             except (KeyError, IndexError, TypeError) as x:
                 raise _Raised(f"{type(x).__name__}: {x}"[:160], type(x).__name__)
         if isinstance(e, ast.Compare):
-            left = self.ev(e.left, env)
+            left, lnode = self.ev(e.left, env), e.left
             for op, c in zip(e.ops, e.comparators):
                 right = self.ev(c, env)
-                if not isinstance(op, (ast.Is, ast.IsNot)) and not (_plain(left) and _plain(right)):
+                if isinstance(op, (ast.Is, ast.IsNot)):
+                    if self.identical(left, right, lnode, c) != isinstance(op, ast.Is):
+                        return False
+                    left, lnode = right, c
+                    continue
+                if not (_plain(left) and _plain(right)):
                     raise CannotEval(f"comparison {short(e, 60)} on a value that is not modelled")
                 if not self.apply(_CMP[type(op)], [left, right], what=short(e, 60)):
                     return False
-                left = right
+                left, lnode = right, c
             return True
         if isinstance(e, ast.BoolOp):
             r = None
@@ -637,7 +999,7 @@ class Interp:
         if isinstance(t, ast.Name):
             env[t.id] = v
         elif isinstance(t, (ast.Tuple, ast.List)):
-            if v is OPAQUE:
+            if isinstance(v, _Opaque):
                 for x in t.elts:
                     self.assign(x.value if isinstance(x, ast.Starred) else x, OPAQUE, env)
                 return
@@ -656,10 +1018,12 @@ class Interp:
             base = self.ev(t.value, env)
             if not isinstance(base, _Obj):
                 raise CannotEval(f"assignment to {short(t, 40)}")
+            if getattr(base, "frozen", False):
+                raise _Raised(f"FrozenInstanceError: cannot assign to field {t.attr!r}", "FrozenInstanceError")
             base.fields[t.attr] = v
         elif isinstance(t, ast.Subscript):
             base = self.ev(t.value, env)
-            if v is OPAQUE or not isinstance(base, (list, dict)) or isinstance(t.slice, ast.Slice):
+            if isinstance(v, _Opaque) or not isinstance(base, (list, dict)) or isinstance(t.slice, ast.Slice):
                 raise CannotEval(f"assignment to {short(t, 40)}")
             self.apply(operator.setitem, [base, self.ev(t.slice, env), v], what=short(t, 40))
         else:
@@ -675,7 +1039,7 @@ class Interp:
 
         def bases_of(nm, seen=()):
             """names of the (transitive) bases of a module-level exception class, None if the chain leaves the module for a non-builtin class."""
-            c = self.classes.get(nm)
+            c = self.classes.get(nm) or self.hierarchy.get(nm)
             if c is None:
                 return None
             out = []
@@ -720,7 +1084,19 @@ class Interp:
 
     def touches_tracked(self, e, env):
         """the expression mentions a local bound to a mutable value of the evaluated program (an un-modelled call could change it)."""
-        return any(isinstance(n, ast.Name) and isinstance(env.get(n.id), (list, dict, set, _Obj)) for n in ast.walk(e))
+        def tracked(n):
+            v = env.get(n.id)
+            if isinstance(v, _Obj):
+                # `self.repo_dir` only reads a field: harmless when the field holds an immutable value
+                p = source.parent(n)
+                if isinstance(p, ast.Attribute) and p.value is n and isinstance(p.ctx, ast.Load) and p.attr in v.fields \
+                        and (v.fields[p.attr] is None or isinstance(v.fields[p.attr], (str, int, float, bool, _Opaque))):
+                    gp = source.parent(p)
+                    return isinstance(gp, ast.Call) and gp.func is p
+                return True
+            return isinstance(v, (list, dict, set))
+
+        return any(isinstance(n, ast.Name) and tracked(n) for n in ast.walk(e))
 
     def run(self, stmts, env):
         for s in stmts:
@@ -798,7 +1174,12 @@ class Interp:
                     if not self.handling:
                         raise CannotEval("bare raise outside a handler")
                     raise self.handling[-1]
-                raise _Raised(short(s.exc, 120), last_attr(s.exc.func if isinstance(s.exc, ast.Call) else s.exc))
+                exc = s.exc
+                while isinstance(exc, ast.Call) and isinstance(exc.func, ast.Attribute) and exc.func.attr == "with_traceback":
+                    exc = exc.func.value
+                if isinstance(exc, ast.Name) and isinstance(env.get(exc.id), _Caught):
+                    raise env[exc.id].raised  # `except X as e: ... raise e`
+                raise _Raised(short(exc, 120), last_attr(exc.func if isinstance(exc, ast.Call) else exc))
             elif isinstance(s, ast.Break):
                 raise _Break()
             elif isinstance(s, ast.Continue):
@@ -819,7 +1200,7 @@ class Interp:
                         if h is None:
                             raise
                         if h.name:
-                            env[h.name] = OPAQUE
+                            env[h.name] = _Caught(r)
                         self.handling.append(r)
                         try:
                             self.run(h.body, env)
@@ -866,6 +1247,8 @@ def attempt(thunk):
     """('value', v) | ('raise', text) | ('unknown', reason) — the three outcomes of evaluating extracted code on one representative input."""
     try:
         v = thunk()
+        if isinstance(v, (map, filter, zip, enumerate, reversed)) or type(v).__name__.endswith("iterator") or (hasattr(v, "__next__") and hasattr(v, "__iter__")):
+            v = list(v)  # (a lazy result is consumed here: an evaluated closure inside it may still raise)
     except _Raised as r:
         return "raise", r.text
     except CannotEval as e:
@@ -874,8 +1257,6 @@ def attempt(thunk):
         return "unknown", f"stray {type(e).__name__}"
     except RecursionError:
         return "unknown", "recursion"
-    if isinstance(v, (map, filter, zip, enumerate, reversed)) or type(v).__name__.endswith("iterator"):
-        v = list(v)
     if not _plain(v):
         return "unknown", "the result is not a plain value"
     return "value", v
@@ -1197,92 +1578,233 @@ def run(chk):
     if len(params_of(up)) < 2:
         raise AnchorMissing("RallyRepository.update(self, distribution_version)")
     dv = params_of(up)[1]
-    bms = [n for n in walk_body(up) if isinstance(n, ast.Call) and last_attr(n.func) == "best_match"]
-    # helper methods update() calls on the same object (an extracted `self._checkout_and_rebase(branch, ...)`)
-    me_ = params_of(up)[0]
-    helper_calls = []
-    for n in walk_body(up):
-        if isinstance(n, ast.Call) and isinstance(n.func, ast.Attribute) and isinstance(n.func.value, ast.Name) and n.func.value.id == me_:
-            h = rep.methods(RR).get(n.func.attr)
-            if h is not None and h is not up:
-                helper_calls.append((n, h))
-    helper_bms = [c for _n, h in helper_calls for c in walk_body(h) if isinstance(c, ast.Call) and last_attr(c.func) == "best_match"]
-    if not bms or (len(bms) != 2 and helper_bms):
-        # the searches are (partly) made in helper methods: the fallback order across methods is not decided here
-        chk.unknown("O15.4", f"{len(bms)} matcher call(s) (best_match) located in RallyRepository.update itself, {len(helper_bms)} in helper methods it calls: the order remote < local "
-                    "across methods is not recognised", up)
-        bms = []
-    else:
-        chk.ob("O15.4", "two matcher calls (remote, local)", len(bms) == 2, up, f"{len(bms)} best_match call(s)")
-
-    gb = git.func("branches")
-    gb_params = params_of(gb)
-    if len(gb_params) < 2:
-        raise AnchorMissing("git.branches(src_dir, remote=...)")
-    i_def = 1 - (len(gb_params) - len(gb.args.defaults))
-    flag_default = gb.args.defaults[i_def] if 0 <= i_def < len(gb.args.defaults) else None
-
-    def branch_source(c):
-        """the remote flag of the git.branches(...) call whose result this matcher call searches (its default when omitted); None if the call searches something else."""
-        a0 = source.arg_of(c, 0, params_of(bm)[0])
-        a0 = source.inline_node(a0, local_defs(up)) if a0 is not None else None
-        if not (isinstance(a0, ast.Call) and last_attr(a0.func) == "branches"):
-            return None
-        flag = source.arg_of(a0, 1, gb_params[1])
-        return flag if flag is not None else flag_default
-
-    # the two calls are told apart by WHAT they search (the remote flag of git.branches: False = local branches, anything else = the remote's), not by their order in the text
-    loc = next((c for c in bms if source.is_const(branch_source(c), False)), None)
-    rem = next((c for c in bms if branch_source(c) is not None and not source.is_const(branch_source(c), False)), None)
-    if len(bms) == 2:
-        if rem is None or loc is None or rem is loc:
-            chk.unknown("O15.4", "the two matcher calls are not told apart by the remote flag of the git.branches(...) call they search", up)
+    def update_structurally():
+        """FALLBACK (only when update() cannot be evaluated on the scenarios below): the same necessary conditions located in the text of update() and of the helper
+        methods it calls."""
+        bms = [n for n in walk_body(up) if isinstance(n, ast.Call) and last_attr(n.func) == "best_match"]
+        # helper methods update() calls on the same object (an extracted `self._checkout_and_rebase(branch, ...)`)
+        me_ = params_of(up)[0]
+        helper_calls = []
+        for n in walk_body(up):
+            if isinstance(n, ast.Call) and isinstance(n.func, ast.Attribute) and isinstance(n.func.value, ast.Name) and n.func.value.id == me_:
+                h = rep.methods(RR).get(n.func.attr)
+                if h is not None and h is not up:
+                    helper_calls.append((n, h))
+        helper_bms = [c for _n, h in helper_calls for c in walk_body(h) if isinstance(c, ast.Call) and last_attr(c.func) == "best_match"]
+        if not bms or (len(bms) != 2 and helper_bms):
+            # the searches are (partly) made in helper methods: the fallback order across methods is not decided here
+            chk.unknown("O15.4", f"{len(bms)} matcher call(s) (best_match) located in RallyRepository.update itself, {len(helper_bms)} in helper methods it calls: the order remote < local "
+                        "across methods is not recognised", up)
+            bms = []
         else:
-            # the remote search runs only for repositories that have a remote: it is guarded by the very flag it passes on (or, for a literal True, by an attribute of the repository)
-            flag = branch_source(rem)
-            facts_ = pat.fact_nodes(rem)
-            ok = any(is_self_attr(f_) for f_ in facts_) if isinstance(flag, ast.Constant) else any(u(f_) == u(flag) for f_ in facts_)
-            chk.ob("O15.4", "remote branches first (only for remote repos), then local branches", ok and not gu.path_exists(gu.node_of(loc), gu.node_of(rem)), rem,
-                   f"remote flag `{u(flag)}`; guard facts {[u(f_) for f_ in facts_]}")
-        for c in bms:
-            a1 = source.arg_of(c, 1, params_of(bm)[1])
-            if a1 is None:
-                chk.unknown("O15.4", "the version argument of a matcher call is not located", c)
-                continue
-            a1 = source.inline_node(a1, local_defs(up))
-            ok = isinstance(a1, ast.Name) and a1.id == dv
-            chk.ob("O15.4", "matcher called with the distribution version", ok, c, u(a1))
+            chk.ob("O15.4", "two matcher calls (remote, local)", len(bms) == 2, up, f"{len(bms)} best_match call(s)")
 
-    def known_absent(node, name):
-        """a guard fact of node says that the local `name` holds nothing: `not name` / `name is None`, also when the local is bound in the test itself (`if not (name := f())`)."""
-        def is_it(x):
-            return (isinstance(x, ast.Name) and x.id == name) or (isinstance(x, ast.NamedExpr) and isinstance(x.target, ast.Name) and x.target.id == name)
+        gb = git.func("branches")
+        gb_params = params_of(gb)
+        if len(gb_params) < 2:
+            raise AnchorMissing("git.branches(src_dir, remote=...)")
+        i_def = 1 - (len(gb_params) - len(gb.args.defaults))
+        flag_default = gb.args.defaults[i_def] if 0 <= i_def < len(gb.args.defaults) else None
 
-        for f_ in pat.fact_nodes(node):
-            if isinstance(f_, ast.UnaryOp) and isinstance(f_.op, ast.Not) and is_it(f_.operand):
-                return True
-            if isinstance(f_, ast.Compare) and len(f_.ops) == 1 and isinstance(f_.ops[0], ast.Is) and is_it(f_.left) and isinstance(f_.comparators[0], ast.Constant) and f_.comparators[0].value is None:
-                return True
-        return False
+        def branch_source(c):
+            """the remote flag of the git.branches(...) call whose result this matcher call searches (its default when omitted); None if the call searches something else."""
+            a0 = source.arg_of(c, 0, params_of(bm)[0])
+            a0 = source.inline_node(a0, local_defs(up)) if a0 is not None else None
+            if not (isinstance(a0, ast.Call) and last_attr(a0.func) == "branches"):
+                return None
+            flag = source.arg_of(a0, 1, gb_params[1])
+            return flag if flag is not None else flag_default
 
-    # names by role: the local holding the local-branch match, the local holding the tag
-    tagc = [n for n in walk_body(up) if isinstance(n, ast.Call) and last_attr(n.func) == "_find_matching_tag"]
-    lbranch = bound_name(loc) if loc is not None else None
-    if not tagc or lbranch is None:
+        # the two calls are told apart by WHAT they search (the remote flag of git.branches: False = local branches, anything else = the remote's), not by their order in the text
+        loc = next((c for c in bms if source.is_const(branch_source(c), False)), None)
+        rem = next((c for c in bms if branch_source(c) is not None and not source.is_const(branch_source(c), False)), None)
         if len(bms) == 2:
-            chk.unknown("O15.4", "the tag fallback (_find_matching_tag call) / the local holding the local-branch match is not located in update()", up)
-        # with ONE matcher call the missing search is reported above
-    else:
-        ok = gu.dominated_by_nodes(gu.node_of(tagc[0]), [gu.node_of(loc)]) and known_absent(tagc[0], lbranch)
-        chk.ob("O15.4", "tags only after no local branch matched", ok, tagc[0], "")
-    raises = [n for n in walk_body(up) if isinstance(n, ast.Raise) and not isinstance(source.enclosing(n, (ast.ExceptHandler,)), ast.ExceptHandler)]
-    tagv = bound_name(tagc[0]) if tagc else None
-    if not raises or tagv is None:
-        if tagc:
-            chk.unknown("O15.4", "the error for `nothing qualifies` (a raise outside the handlers) / the local holding the tag is not located in update()", up)
-    else:
-        ok = any(known_absent(r_, tagv) for r_ in raises)
-        chk.ob("O15.4", "explicit error when nothing qualifies", ok, raises[0], "")
+            if rem is None or loc is None or rem is loc:
+                chk.unknown("O15.4", "the two matcher calls are not told apart by the remote flag of the git.branches(...) call they search", up)
+            else:
+                # the remote search runs only for repositories that have a remote: it is guarded by the very flag it passes on (or, for a literal True, by an attribute of the repository)
+                flag = branch_source(rem)
+                facts_ = pat.fact_nodes(rem)
+                ok = any(is_self_attr(f_) for f_ in facts_) if isinstance(flag, ast.Constant) else any(u(f_) == u(flag) for f_ in facts_)
+                chk.ob("O15.4", "remote branches first (only for remote repos), then local branches", ok and not gu.path_exists(gu.node_of(loc), gu.node_of(rem)), rem,
+                       f"remote flag `{u(flag)}`; guard facts {[u(f_) for f_ in facts_]}")
+            for c in bms:
+                a1 = source.arg_of(c, 1, params_of(bm)[1])
+                if a1 is None:
+                    chk.unknown("O15.4", "the version argument of a matcher call is not located", c)
+                    continue
+                a1 = source.inline_node(a1, local_defs(up))
+                ok = isinstance(a1, ast.Name) and a1.id == dv
+                chk.ob("O15.4", "matcher called with the distribution version", ok, c, u(a1))
+
+        def known_absent(node, name):
+            """a guard fact of node says that the local `name` holds nothing: `not name` / `name is None`, also when the local is bound in the test itself (`if not (name := f())`)."""
+            def is_it(x):
+                return (isinstance(x, ast.Name) and x.id == name) or (isinstance(x, ast.NamedExpr) and isinstance(x.target, ast.Name) and x.target.id == name)
+
+            for f_ in pat.fact_nodes(node):
+                if isinstance(f_, ast.UnaryOp) and isinstance(f_.op, ast.Not) and is_it(f_.operand):
+                    return True
+                if isinstance(f_, ast.Compare) and len(f_.ops) == 1 and isinstance(f_.ops[0], ast.Is) and is_it(f_.left) and isinstance(f_.comparators[0], ast.Constant) and f_.comparators[0].value is None:
+                    return True
+            return False
+
+        # names by role: the local holding the local-branch match, the local holding the tag
+        tagc = [n for n in walk_body(up) if isinstance(n, ast.Call) and last_attr(n.func) == "_find_matching_tag"]
+        lbranch = bound_name(loc) if loc is not None else None
+        if not tagc or lbranch is None:
+            if len(bms) == 2:
+                chk.unknown("O15.4", "the tag fallback (_find_matching_tag call) / the local holding the local-branch match is not located in update()", up)
+            # with ONE matcher call the missing search is reported above
+        else:
+            ok = gu.dominated_by_nodes(gu.node_of(tagc[0]), [gu.node_of(loc)]) and known_absent(tagc[0], lbranch)
+            chk.ob("O15.4", "tags only after no local branch matched", ok, tagc[0], "")
+        raises = [n for n in walk_body(up) if isinstance(n, ast.Raise) and not isinstance(source.enclosing(n, (ast.ExceptHandler,)), ast.ExceptHandler)]
+        tagv = bound_name(tagc[0]) if tagc else None
+        if not raises or tagv is None:
+            if tagc:
+                chk.unknown("O15.4", "the error for `nothing qualifies` (a raise outside the handlers) / the local holding the tag is not located in update()", up)
+        else:
+            ok = any(known_absent(r_, tagv) for r_ in raises)
+            chk.ob("O15.4", "explicit error when nothing qualifies", ok, raises[0], "")
+
+        fcalls = [c for c in walk_body(up) if isinstance(c, ast.Call) and dotted(c.func) in ("git.fetch", "git.pull")]
+        rb = [c for c in bms if c is rem]
+        if not rb:
+            if len(bms) == 2:
+                chk.unknown("O15.4", "the listing of the remote branches is not located in update()", up)
+        elif fcalls:
+            ok = all(gu.dominated_by_nodes(gu.node_of(b_), [gu.node_of(f_) for f_ in fcalls]) for b_ in rb)
+            chk.ob("O15.4", "remote branches are listed after a fetch", ok, rb[0], "")
+        else:
+            # the fetch happens in the constructor / another method: accept when some method of the class calls git.fetch
+            anyf = [c for f_ in rep.methods(RR).values() for c in walk_body(f_) if isinstance(c, ast.Call) and dotted(c.func) in ("git.fetch", "git.pull")]
+            chk.ob("O15.4", "remote branches are listed after a fetch", bool(anyf), rb[0], "" if anyf else "no method of the class fetches")
+        # checkouts are analysed where they are written: in update() itself or in a helper method update() calls on the same object (`self._checkout_and_rebase(branch, ...)`): the
+        # helper's parameter is mapped back to the argument at the call site, and an error must neither be absorbed inside the helper nor around the call
+        cos = [n for n in walk_body(up) if isinstance(n, ast.Call) and dotted(n.func) == "git.checkout"]
+        sites = [(c, up, gu, None, {}) for c in cos]
+        for n, h in helper_calls:
+            for c in walk_body(h):
+                if isinstance(c, ast.Call) and dotted(c.func) == "git.checkout":
+                    sites.append((c, h, cfg_of(h), n, source.bind_args(n, h)))
+        if not sites:
+            chk.unknown("O15.4", "no git.checkout call located in update() or in a helper method it calls", up)
+        # a checkout of the selected local branch may be skipped only when that very branch is checked out already: the only test on the current branch is (in)equality with the selection
+        # (a local that holds the current branch is seen through: `current = git.current_branch(d)` ... `if current != branch`)
+        cur_defs = {k: v for k, v in local_defs(up).items() if isinstance(v, ast.Call) and dotted(v.func) == "git.current_branch"}
+
+        def inlined_current(f_):
+            return source.inline_node(f_, cur_defs) if cur_defs else f_
+
+        cbt = []
+        for c, fn_, g_, via, _b in sites:
+            for f_ in pat.fact_nodes(via if via is not None else c):
+                if any(isinstance(x, ast.Call) and dotted(x.func) == "git.current_branch" for x in ast.walk(inlined_current(f_))) and not any(f_ is y for y in cbt):
+                    cbt.append(f_)
+        for f_ in cbt:
+            ok = pat.is_(inlined_current(f_), "git.current_branch(E_d) != V_b")
+            chk.ob("O15.4", "checkout skipped only if the current branch EQUALS the selected one", ok, f_, u(f_) + ("" if ok else " — a branch whose name merely relates to the selection (suffix, prefix, ...) is kept: `8.8` stays checked out when `8` was selected"),
+                   key="esrally/utils/repo.py:RallyRepository.update:skip-only-if-equal")
+        if cbt:
+            chk.ob("O15.4", "current-branch test located", True, up, f"{len(cbt)} test(s)")
+        elif sites:
+            chk.unknown("O15.4", "no test on git.current_branch(...) guards a checkout of update() (the skip-if-already-checked-out test is written differently)", up)
+        # the revision pinned for later loads (workers re-load with it) is the head AFTER the ref was switched: no checkout / rebase can follow a revision read
+
+        def rev_writes(fn_):
+            return [n for n in walk_body(fn_) if isinstance(n, ast.Assign) and any(isinstance(t, ast.Attribute) and t.attr == "revision" and isinstance(t.value, ast.Name) and t.value.id == params_of(fn_)[0]
+                                                                                   for t in n.targets) and isinstance(n.value, ast.Call) and last_attr(n.value.func) == "head_revision"]
+
+        def git_movers(fn_):
+            return [n for n in walk_body(fn_) if isinstance(n, ast.Call) and dotted(n.func) in ("git.checkout", "git.rebase", "git.pull", "git.fetch")]
+
+        # in update() a call of a helper that itself switches the ref counts as a ref-changing call
+        movers = git_movers(up) + [n for n, h in helper_calls if git_movers(h)]
+        revw = rev_writes(up)
+        for w_ in revw:
+            later = [m_ for m_ in movers if gu.path_exists(gu.node_of(w_), gu.node_of(m_)) and gu.node_of(w_) is not gu.node_of(m_)]
+            chk.ob("O15.4", "the pinned revision is read after the last ref-changing git call", not later, w_,
+                   "" if not later else f"`{short(later[0], 50)}` (line {later[0].lineno}) can still run after the revision was recorded: later loads check out the commit Rally was on BEFORE selecting the branch",
+                   key=f"esrally/utils/repo.py:RallyRepository.update:revision-after-checkout:{len([x for x in revw if x.lineno < w_.lineno])}")
+        n_rev = len(revw)
+        seen_h = []
+        for n, h in helper_calls:
+            gh = cfg_of(h)
+            for i_, w_ in enumerate(rev_writes(h)):
+                later = [m_ for m_ in git_movers(h) if gh.path_exists(gh.node_of(w_), gh.node_of(m_)) and gh.node_of(w_) is not gh.node_of(m_)]
+                if isinstance(source.parent(n), ast.Expr):
+                    # (when update() tests the helper's result, which of its paths continues is not correlated here: only a plain call statement is followed)
+                    later += [m_ for m_ in movers if gu.node_of(m_) is not gu.node_of(n) and gu.path_exists(gu.node_of(n), gu.node_of(m_))]
+                n_rev += 1
+                if any(h is x for x in seen_h) and not later:
+                    continue  # the same helper called from several places: one instance per helper unless a call site is wrong
+                chk.ob("O15.4", "the pinned revision is read after the last ref-changing git call", not later, w_,
+                       f"in {h.name}(), called as `{short(n, 50)}`" + ("" if not later else f": `{short(later[0], 50)}` (line {later[0].lineno}) can still run after the revision was recorded: later loads check out the "
+                                                                      "commit Rally was on BEFORE selecting the branch"),
+                       key=f"esrally/utils/repo.py:RallyRepository.{h.name}:revision-after-checkout:{i_}:{len([x for x, _h in helper_calls if x.lineno < n.lineno])}")
+            seen_h.append(h)
+        # every checkout is followed by a revision read on every normal path to the end of the function it is written in (or, for a helper without one, of update())
+        if n_rev == 0:
+            if sites:
+                chk.unknown("O15.4", "no assignment `self.revision = git.head_revision(...)` located in update() or its helpers (the revision is recorded differently)", up)
+        else:
+            for c, fn_, g_, via, _b in sites:
+                ws = rev_writes(fn_)
+                if ws:
+                    ok = g_.must_pass(g_.node_of(c), [g_.node_of(w_) for w_ in ws], normal_only=True)
+                elif via is not None and revw:
+                    ok = gu.must_pass(gu.node_of(via), [gu.node_of(w_) for w_ in revw], normal_only=True) or gu.node_of(via) in [gu.node_of(w_) for w_ in revw]
+                else:
+                    ok = False
+                chk.ob("O15.4", "revision recorded after a checkout", ok, c, f"{short(c, 60)} in {fn_.name}()" + ("" if ok else ": a normal path to the end of the function records no revision"))
+
+        def origins(name, fn_=None, seen=()):
+            """values that can reach the local `name` in update() (or in the given helper), seen through plain aliases (`a = b`)."""
+            out = []
+            for n in walk_body(fn_ or up):
+                if isinstance(n, ast.Assign) and any(isinstance(t, ast.Name) and t.id == name for t in n.targets):
+                    if isinstance(n.value, ast.Name) and n.value.id not in seen and n.value.id != name:
+                        out += origins(n.value.id, fn_, seen + (name,)) or [n.value]
+                    else:
+                        out.append(n.value)
+                elif isinstance(n, ast.NamedExpr) and n.target.id == name:
+                    out.append(n.value)
+            return out
+
+        def absorbed(g, node):
+            """an exception raised by `node` can reach the normal exit of the function through one of its handlers."""
+            cn = g.node_of(node)
+            exc_succ = [g.nodes[y] for (y, lab) in g.succ[cn.id] if lab.startswith("exc")]
+            return any(g.exit.id in g.reachable([s_]) for s_ in exc_succ if s_.kind == "except")
+
+        for c, fn_, g_, via, binds in sites:
+            ref_ = source.arg_of(c, 1, "branch")
+            while isinstance(ref_, ast.NamedExpr):
+                ref_ = ref_.value
+            located = True
+            scope = None
+            if via is not None:
+                # inside a helper: the ref is one of its parameters (continue with the argument update() passes for it) or one of its own locals
+                stored = isinstance(ref_, ast.Name) and any(isinstance(x, ast.Name) and x.id == ref_.id and isinstance(x.ctx, ast.Store) for x in walk_body(fn_))
+                if isinstance(ref_, ast.Name) and ref_.id in binds and not stored:
+                    ref_ = binds[ref_.id]
+                elif stored:
+                    scope = fn_
+                else:
+                    located = False
+            d = origins(ref_.id, scope) if isinstance(ref_, ast.Name) else ([ref_] if isinstance(ref_, ast.Call) else None)
+            if located and not d and isinstance(ref_, ast.Name) and ref_.id in params_of(up):
+                chk.ob("O15.4", "checked-out ref is the matcher's (or tag finder's) result", False, c, f"{short(c, 70)}: `{ref_.id}` is a parameter of update(), not a result of the matcher")
+            elif not located or not d:
+                chk.unknown("O15.4", f"the origin of the ref handed to `{short(c, 60)}` is not located (neither a local of update() nor a parameter of the helper it is written in)", c)
+            else:
+                ok = all(isinstance(x, ast.Call) and last_attr(x.func) in ("best_match", "_find_matching_tag") for x in d)
+                chk.ob("O15.4", "checked-out ref is the matcher's (or tag finder's) result", ok, c, short(c, 70) + ("" if via is None else f" in {fn_.name}(), called as `{short(via, 60)}`"))
+            # errors propagate: from the checkout's exception edges the normal exit is unreachable
+            swallowed = absorbed(g_, c) or (via is not None and absorbed(gu, via))
+            chk.ob("O15.4", "a failing checkout is never swallowed", not swallowed, c, "" if not swallowed else
+                   f"an enclosing handler absorbs the checkout error and {fn_.name}() returns normally: Rally continues on whatever branch was checked out before")
 
     def words(func):
         """words of the git command line(s) a function builds: the string literals of every expression (plain, %-format, concatenation or f-string) whose text starts with `git`;
@@ -1303,190 +1825,61 @@ def run(chk):
                 out += " ".join(c.value for c in lits).split()
         return out
 
-    # the remote branch list is the list the remote HAS: fetch prunes deleted remote branches and brings the tags the tag fallback searches
-    gf = git.func("fetch")
-    toks = words(gf)
-    if "fetch" not in toks:
-        chk.unknown("O15.4", f"the git command of git.fetch is not located (words: {toks[:12]})", gf)
-    else:
-        ok = "--prune" in toks and "--tags" in toks
-        chk.ob("O15.4", "git fetch prunes deleted remote branches and fetches tags", ok, gf, f"command words: {toks}" +
-               ("" if ok else " — without --prune a branch deleted upstream keeps matching (origin/<branch> is stale) and is checked out instead of the documented fallback"),
-               key="esrally/utils/git.py:fetch:prune-and-tags")
-    # every git command that names the repository directory interpolates the ESCAPED path (a raw path with a backslash / space is mangled by the shell-style splitting: git's error
-    # text then becomes the "branch list")
-    n_cmd = 0
-    for gfn in git.functions():
-        gps = params_of(gfn)
-        if not gps:
-            continue
-        raw = gps[0]
-        for c in [c for c in walk_body(gfn) if isinstance(c, ast.Call) and (dotted(c.func) or "").startswith("process.run_subprocess") and c.args]:
-            cmd = c.args[0]
-            if isinstance(cmd, ast.Name) and cmd.id in local_defs(gfn):
-                # a command line built in a local first (git.is_branch, not on the update path): reported as an advisory only
-                held = local_defs(gfn)[cmd.id]
-                if isinstance(held, ast.JoinedStr) and any(isinstance(v, ast.FormattedValue) and isinstance(v.value, ast.Name) and v.value.id == raw for v in held.values):
-                    chk.adv("O15.4", f"git.{gfn.name}: the repository path `{raw}` is interpolated raw (not escaped) in {short(held, 60)}", c)
-                continue
-            interp = [v.value for v in cmd.values if isinstance(v, ast.FormattedValue)] if isinstance(cmd, ast.JoinedStr) else \
-                (list(cmd.right.elts) if isinstance(cmd, ast.BinOp) and isinstance(cmd.op, ast.Mod) and isinstance(cmd.right, ast.Tuple) else ([cmd.right] if isinstance(cmd, ast.BinOp) and isinstance(cmd.op, ast.Mod) else []))
-            if not interp:
-                continue
-            n_cmd += 1
-            bare = [x for x in interp if isinstance(x, ast.Name) and x.id == raw]
-            chk.ob("O15.4", f"git.{gfn.name}: the repository path is interpolated escaped", not bare, c, "" if not bare else f"`{raw}` is used raw in {short(cmd, 60)}",
-                   key=f"esrally/utils/git.py:{gfn.name}:escaped-path:{len([x for x in walk_body(gfn) if isinstance(x, ast.Call) and x.lineno < c.lineno and (dotted(x.func) or '').startswith('process.run_subprocess')])}")
-    if n_cmd >= 8:
-        chk.ob("O15.4", "git command sites located", True, git.tree, f"{n_cmd} command(s) with interpolated arguments")
-    else:
-        chk.unknown("O15.4", f"only {n_cmd} git command(s) with interpolated arguments located in git.py (8 expected: the command sites are built differently)", git.tree)
-    # a fresh clone has ALL branches of the remote (a shallow / single-branch clone only knows the default branch: every version then falls back to it)
-    gcl = git.func("clone")
-    ctoks = words(gcl)
-    if "clone" not in ctoks:
-        chk.unknown("O15.4", f"the git command of git.clone is not located (words: {ctoks[:12]})", gcl)
-    else:
-        narrowing = [t for t in ctoks if t.startswith(("--depth", "--single-branch", "--shallow", "--branch", "-b", "--filter", "--no-tags"))]
-        chk.ob("O15.4", "git clone fetches every branch (no --depth / --single-branch / --branch)", not narrowing, gcl, f"command words: {[t for t in ctoks if not t.startswith('%')]}" +
-               ("" if not narrowing else f" — {narrowing} leaves only the default branch: the best match for every version is then the default branch"), key="esrally/utils/git.py:clone:all-branches")
-    fcalls = [c for c in walk_body(up) if isinstance(c, ast.Call) and dotted(c.func) in ("git.fetch", "git.pull")]
-    rb = [c for c in bms if c is rem]
-    if not rb:
-        if len(bms) == 2:
-            chk.unknown("O15.4", "the listing of the remote branches is not located in update()", up)
-    elif fcalls:
-        ok = all(gu.dominated_by_nodes(gu.node_of(b_), [gu.node_of(f_) for f_ in fcalls]) for b_ in rb)
-        chk.ob("O15.4", "remote branches are listed after a fetch", ok, rb[0], "")
-    else:
-        # the fetch happens in the constructor / another method: accept when some method of the class calls git.fetch
-        anyf = [c for f_ in rep.methods(RR).values() for c in walk_body(f_) if isinstance(c, ast.Call) and dotted(c.func) in ("git.fetch", "git.pull")]
-        chk.ob("O15.4", "remote branches are listed after a fetch", bool(anyf), rb[0], "" if anyf else "no method of the class fetches")
-    # checkouts are analysed where they are written: in update() itself or in a helper method update() calls on the same object (`self._checkout_and_rebase(branch, ...)`): the
-    # helper's parameter is mapped back to the argument at the call site, and an error must neither be absorbed inside the helper nor around the call
-    cos = [n for n in walk_body(up) if isinstance(n, ast.Call) and dotted(n.func) == "git.checkout"]
-    sites = [(c, up, gu, None, {}) for c in cos]
-    for n, h in helper_calls:
-        for c in walk_body(h):
-            if isinstance(c, ast.Call) and dotted(c.func) == "git.checkout":
-                sites.append((c, h, cfg_of(h), n, source.bind_args(n, h)))
-    if not sites:
-        chk.unknown("O15.4", "no git.checkout call located in update() or in a helper method it calls", up)
-    # a checkout of the selected local branch may be skipped only when that very branch is checked out already: the only test on the current branch is (in)equality with the selection
-    # (a local that holds the current branch is seen through: `current = git.current_branch(d)` ... `if current != branch`)
-    cur_defs = {k: v for k, v in local_defs(up).items() if isinstance(v, ast.Call) and dotted(v.func) == "git.current_branch"}
-
-    def inlined_current(f_):
-        return source.inline_node(f_, cur_defs) if cur_defs else f_
-
-    cbt = []
-    for c, fn_, g_, via, _b in sites:
-        for f_ in pat.fact_nodes(via if via is not None else c):
-            if any(isinstance(x, ast.Call) and dotted(x.func) == "git.current_branch" for x in ast.walk(inlined_current(f_))) and not any(f_ is y for y in cbt):
-                cbt.append(f_)
-    for f_ in cbt:
-        ok = pat.is_(inlined_current(f_), "git.current_branch(E_d) != V_b")
-        chk.ob("O15.4", "checkout skipped only if the current branch EQUALS the selected one", ok, f_, u(f_) + ("" if ok else " — a branch whose name merely relates to the selection (suffix, prefix, ...) is kept: `8.8` stays checked out when `8` was selected"),
-               key="esrally/utils/repo.py:RallyRepository.update:skip-only-if-equal")
-    if cbt:
-        chk.ob("O15.4", "current-branch test located", True, up, f"{len(cbt)} test(s)")
-    elif sites:
-        chk.unknown("O15.4", "no test on git.current_branch(...) guards a checkout of update() (the skip-if-already-checked-out test is written differently)", up)
-    # the revision pinned for later loads (workers re-load with it) is the head AFTER the ref was switched: no checkout / rebase can follow a revision read
-
-    def rev_writes(fn_):
-        return [n for n in walk_body(fn_) if isinstance(n, ast.Assign) and any(isinstance(t, ast.Attribute) and t.attr == "revision" and isinstance(t.value, ast.Name) and t.value.id == params_of(fn_)[0]
-                                                                               for t in n.targets) and isinstance(n.value, ast.Call) and last_attr(n.value.func) == "head_revision"]
-
-    def git_movers(fn_):
-        return [n for n in walk_body(fn_) if isinstance(n, ast.Call) and dotted(n.func) in ("git.checkout", "git.rebase", "git.pull", "git.fetch")]
-
-    # in update() a call of a helper that itself switches the ref counts as a ref-changing call
-    movers = git_movers(up) + [n for n, h in helper_calls if git_movers(h)]
-    revw = rev_writes(up)
-    for w_ in revw:
-        later = [m_ for m_ in movers if gu.path_exists(gu.node_of(w_), gu.node_of(m_)) and gu.node_of(w_) is not gu.node_of(m_)]
-        chk.ob("O15.4", "the pinned revision is read after the last ref-changing git call", not later, w_,
-               "" if not later else f"`{short(later[0], 50)}` (line {later[0].lineno}) can still run after the revision was recorded: later loads check out the commit Rally was on BEFORE selecting the branch",
-               key=f"esrally/utils/repo.py:RallyRepository.update:revision-after-checkout:{len([x for x in revw if x.lineno < w_.lineno])}")
-    n_rev = len(revw)
-    seen_h = []
-    for n, h in helper_calls:
-        gh = cfg_of(h)
-        for i_, w_ in enumerate(rev_writes(h)):
-            later = [m_ for m_ in git_movers(h) if gh.path_exists(gh.node_of(w_), gh.node_of(m_)) and gh.node_of(w_) is not gh.node_of(m_)]
-            if isinstance(source.parent(n), ast.Expr):
-                # (when update() tests the helper's result, which of its paths continues is not correlated here: only a plain call statement is followed)
-                later += [m_ for m_ in movers if gu.node_of(m_) is not gu.node_of(n) and gu.path_exists(gu.node_of(n), gu.node_of(m_))]
-            n_rev += 1
-            if any(h is x for x in seen_h) and not later:
-                continue  # the same helper called from several places: one instance per helper unless a call site is wrong
-            chk.ob("O15.4", "the pinned revision is read after the last ref-changing git call", not later, w_,
-                   f"in {h.name}(), called as `{short(n, 50)}`" + ("" if not later else f": `{short(later[0], 50)}` (line {later[0].lineno}) can still run after the revision was recorded: later loads check out the "
-                                                                  "commit Rally was on BEFORE selecting the branch"),
-                   key=f"esrally/utils/repo.py:RallyRepository.{h.name}:revision-after-checkout:{i_}:{len([x for x, _h in helper_calls if x.lineno < n.lineno])}")
-        seen_h.append(h)
-    # every checkout is followed by a revision read on every normal path to the end of the function it is written in (or, for a helper without one, of update())
-    if n_rev == 0:
-        if sites:
-            chk.unknown("O15.4", "no assignment `self.revision = git.head_revision(...)` located in update() or its helpers (the revision is recorded differently)", up)
-    else:
-        for c, fn_, g_, via, _b in sites:
-            ws = rev_writes(fn_)
-            if ws:
-                ok = g_.must_pass(g_.node_of(c), [g_.node_of(w_) for w_ in ws], normal_only=True)
-            elif via is not None and revw:
-                ok = gu.must_pass(gu.node_of(via), [gu.node_of(w_) for w_ in revw], normal_only=True) or gu.node_of(via) in [gu.node_of(w_) for w_ in revw]
-            else:
-                ok = False
-            chk.ob("O15.4", "revision recorded after a checkout", ok, c, f"{short(c, 60)} in {fn_.name}()" + ("" if ok else ": a normal path to the end of the function records no revision"))
-
-    def origins(name, fn_=None, seen=()):
-        """values that can reach the local `name` in update() (or in the given helper), seen through plain aliases (`a = b`)."""
-        out = []
-        for n in walk_body(fn_ or up):
-            if isinstance(n, ast.Assign) and any(isinstance(t, ast.Name) and t.id == name for t in n.targets):
-                if isinstance(n.value, ast.Name) and n.value.id not in seen and n.value.id != name:
-                    out += origins(n.value.id, fn_, seen + (name,)) or [n.value]
-                else:
-                    out.append(n.value)
-            elif isinstance(n, ast.NamedExpr) and n.target.id == name:
-                out.append(n.value)
-        return out
-
-    def absorbed(g, node):
-        """an exception raised by `node` can reach the normal exit of the function through one of its handlers."""
-        cn = g.node_of(node)
-        exc_succ = [g.nodes[y] for (y, lab) in g.succ[cn.id] if lab.startswith("exc")]
-        return any(g.exit.id in g.reachable([s_]) for s_ in exc_succ if s_.kind == "except")
-
-    for c, fn_, g_, via, binds in sites:
-        ref_ = source.arg_of(c, 1, "branch")
-        while isinstance(ref_, ast.NamedExpr):
-            ref_ = ref_.value
-        located = True
-        scope = None
-        if via is not None:
-            # inside a helper: the ref is one of its parameters (continue with the argument update() passes for it) or one of its own locals
-            stored = isinstance(ref_, ast.Name) and any(isinstance(x, ast.Name) and x.id == ref_.id and isinstance(x.ctx, ast.Store) for x in walk_body(fn_))
-            if isinstance(ref_, ast.Name) and ref_.id in binds and not stored:
-                ref_ = binds[ref_.id]
-            elif stored:
-                scope = fn_
-            else:
-                located = False
-        d = origins(ref_.id, scope) if isinstance(ref_, ast.Name) else ([ref_] if isinstance(ref_, ast.Call) else None)
-        if located and not d and isinstance(ref_, ast.Name) and ref_.id in params_of(up):
-            chk.ob("O15.4", "checked-out ref is the matcher's (or tag finder's) result", False, c, f"{short(c, 70)}: `{ref_.id}` is a parameter of update(), not a result of the matcher")
-        elif not located or not d:
-            chk.unknown("O15.4", f"the origin of the ref handed to `{short(c, 60)}` is not located (neither a local of update() nor a parameter of the helper it is written in)", c)
+    def fetch_flags_structurally():
+        # the remote branch list is the list the remote HAS: fetch prunes deleted remote branches and brings the tags the tag fallback searches
+        gf = git.func("fetch")
+        toks = words(gf)
+        if "fetch" not in toks:
+            chk.unknown("O15.4", f"the git command of git.fetch is not located (words: {toks[:12]})", gf)
         else:
-            ok = all(isinstance(x, ast.Call) and last_attr(x.func) in ("best_match", "_find_matching_tag") for x in d)
-            chk.ob("O15.4", "checked-out ref is the matcher's (or tag finder's) result", ok, c, short(c, 70) + ("" if via is None else f" in {fn_.name}(), called as `{short(via, 60)}`"))
-        # errors propagate: from the checkout's exception edges the normal exit is unreachable
-        swallowed = absorbed(g_, c) or (via is not None and absorbed(gu, via))
-        chk.ob("O15.4", "a failing checkout is never swallowed", not swallowed, c, "" if not swallowed else
-               f"an enclosing handler absorbs the checkout error and {fn_.name}() returns normally: Rally continues on whatever branch was checked out before")
+            ok = "--prune" in toks and "--tags" in toks
+            chk.ob("O15.4", "git fetch prunes deleted remote branches and fetches tags", ok, gf, f"command words: {toks}" +
+                   ("" if ok else " — without --prune a branch deleted upstream keeps matching (origin/<branch> is stale) and is checked out instead of the documented fallback"),
+                   key="esrally/utils/git.py:fetch:prune-and-tags")
+
+    def escaped_structurally(only=None):
+        # every git command that names the repository directory interpolates the ESCAPED path (a raw path with a backslash / space is mangled by the shell-style splitting: git's error
+        # text then becomes the "branch list")
+        n_cmd = 0
+        for gfn in git.functions():
+            gps = params_of(gfn)
+            if not gps:
+                continue
+            raw = gps[0]
+            for c in [c for c in walk_body(gfn) if isinstance(c, ast.Call) and (dotted(c.func) or "").startswith("process.run_subprocess") and c.args]:
+                cmd = c.args[0]
+                if isinstance(cmd, ast.Name) and cmd.id in local_defs(gfn):
+                    # a command line built in a local first (git.is_branch, not on the update path): reported as an advisory only
+                    held = local_defs(gfn)[cmd.id]
+                    if isinstance(held, ast.JoinedStr) and any(isinstance(v, ast.FormattedValue) and isinstance(v.value, ast.Name) and v.value.id == raw for v in held.values):
+                        chk.adv("O15.4", f"git.{gfn.name}: the repository path `{raw}` is interpolated raw (not escaped) in {short(held, 60)}", c)
+                    continue
+                interp = [v.value for v in cmd.values if isinstance(v, ast.FormattedValue)] if isinstance(cmd, ast.JoinedStr) else \
+                    (list(cmd.right.elts) if isinstance(cmd, ast.BinOp) and isinstance(cmd.op, ast.Mod) and isinstance(cmd.right, ast.Tuple) else ([cmd.right] if isinstance(cmd, ast.BinOp) and isinstance(cmd.op, ast.Mod) else []))
+                if not interp:
+                    continue
+                n_cmd += 1
+                bare = [x for x in interp if isinstance(x, ast.Name) and x.id == raw]
+                chk.ob("O15.4", f"git.{gfn.name}: the repository path is interpolated escaped", not bare, c, "" if not bare else f"`{raw}` is used raw in {short(cmd, 60)}",
+                       key=f"esrally/utils/git.py:{gfn.name}:escaped-path:{len([x for x in walk_body(gfn) if isinstance(x, ast.Call) and x.lineno < c.lineno and (dotted(x.func) or '').startswith('process.run_subprocess')])}")
+        if n_cmd >= 8:
+            chk.ob("O15.4", "git command sites located", True, git.tree, f"{n_cmd} command(s) with interpolated arguments")
+        else:
+            chk.unknown("O15.4", f"only {n_cmd} git command(s) with interpolated arguments located in git.py (8 expected: the command sites are built differently)", git.tree)
+
+    def clone_structurally():
+        # a fresh clone has ALL branches of the remote (a shallow / single-branch clone only knows the default branch: every version then falls back to it)
+        gcl = git.func("clone")
+        ctoks = words(gcl)
+        if "clone" not in ctoks:
+            chk.unknown("O15.4", f"the git command of git.clone is not located (words: {ctoks[:12]})", gcl)
+        else:
+            narrowing = [t for t in ctoks if t.startswith(("--depth", "--single-branch", "--shallow", "--branch", "-b", "--filter", "--no-tags"))]
+            chk.ob("O15.4", "git clone fetches every branch (no --depth / --single-branch / --branch)", not narrowing, gcl, f"command words: {[t for t in ctoks if not t.startswith('%')]}" +
+                   ("" if not narrowing else f" — {narrowing} leaves only the default branch: the best match for every version is then the default branch"), key="esrally/utils/git.py:clone:all-branches")
+
+    #@@VALUES@@
+
     # the tag search walks the variants most specific first and matches `v<variant>`: decided on values (git.tags(...) and versions.variants_of(...) are the only calls it makes;
     # the latter is evaluated from versions.py)
     ft = rep.methods(RR).get("_find_matching_tag")
@@ -1579,6 +1972,45 @@ _TAG_OLD = ('                    self.logger.info(\n                        "Che
             '                    git.checkout(self.repo_dir, branch=tag)\n                    self.revision = git.head_revision(self.repo_dir)\n')
 _SWITCH = ('    def _switch_to(self, ref, distribution_version):\n        self.logger.info("Checking out [%s] in [%s] for distribution version [%s].", ref, self.repo_dir, distribution_version)\n'
            '        git.checkout(self.repo_dir, branch=ref)\n        self.revision = git.head_revision(self.repo_dir)\n\n    def _find_matching_tag(self, distribution_version):\n')
+
+# typed data model (benign round 2, b8): records as NamedTuple / namedtuple / dataclass, kinds as an enumeration, helpers of functools / operator
+_IMP_OLD = "import re\n"
+_VVCLS_OLD = "\n\nclass VersionVariants:\n"
+_VO_OLD = "    for v, _ in VersionVariants(version).all_versions:\n        yield v\n"
+_VO_NT = "    for variant in VersionVariants(version).all_versions:\n        yield variant.version\n"
+_LOOP_OLD = ('        for version, version_type in versions.all_versions:\n            if version in available_alternatives:\n                return version\n'
+             '            # match nearest prior minor\n            if version_type == "with_minor" and (latest_minor := latest_bounded_minor(available_alternatives, versions)) is not None:\n')
+_NT_CLS = 'class VersionVariant(NamedTuple):\n    """a variant of a version and its kind"""\n\n    version: str\n    version_type: str\n'
+_ENUM_CLS = ('class VersionType(Enum):\n    WITH_SUFFIX = "with_suffix"\n    WITH_PATCH = "with_patch"\n    WITH_MINOR = "with_minor"\n    WITH_MAJOR = "with_major"\n')
+_DC_HELPER = ('    parsed = [_Branch(*components(a, strict=False)) for a in alternatives if is_version_identifier(a, strict=False)]\n'
+              '    eligible_minors = [b.minor for b in parsed if b.is_minor_branch and b.major == target_version.major and b.minor <= target_version.minor]\n'
+              '    return max(eligible_minors, default=None)\n\n\n'
+              '@dataclasses.dataclass(frozen=True)\nclass _Branch:\n    major: int\n    minor: Optional[int] = None\n    patch: Optional[int] = None\n    suffix: Optional[str] = None\n\n'
+              '    @property\n    def is_minor_branch(self) -> bool:\n        return self.minor is not None and self.patch is None and self.suffix is None\n')
+_FP_HELPER = ('    parts = (components(a, strict=False) for a in alternatives if is_version_identifier(a, strict=False))\n'
+              '    minors = sorted(map(operator.itemgetter(1), filter(functools.partial(_eligible, target_version), parts)), reverse=True)\n    return next(iter(minors), None)\n\n\n'
+              'def _eligible(target_version, parts):\n    major, minor, patch, suffix = parts\n'
+              '    return patch is None and suffix is None and minor is not None and major == target_version.major and minor <= target_version.minor\n')
+
+
+def _av_new(ctor, kinds=('"with_suffix"', '"with_patch"', '"with_minor"', '"with_major"')):
+    return (f'        versions = [{ctor}(self.with_suffix, {kinds[0]})] if self.suffix else []\n        versions.extend(\n            [\n                {ctor}(self.with_patch, {kinds[1]}),\n'
+            f'                {ctor}(self.with_minor, {kinds[2]}),\n                {ctor}(self.with_major, {kinds[3]}),\n            ]\n        )\n')
+
+
+def _loop_new(test):
+    return ('        for variant in versions.all_versions:\n            if variant.version in available_alternatives:\n                return variant.version\n'
+            f'            if (\n                {test}\n                and (latest_minor := latest_bounded_minor(available_alternatives, versions)) is not None\n            ):\n')
+
+
+_EK = ("VersionType.WITH_SUFFIX", "VersionType.WITH_PATCH", "VersionType.WITH_MINOR", "VersionType.WITH_MAJOR")
+
+
+def _typed(name, kind, rule, imp, decl, av, loop=None, vo=None):
+    """one multi-edit variant of versions.py: import line, declaration(s) in front of VersionVariants, all_versions body, matcher loop, variants_of body."""
+    edits = [(_IMP_OLD, _IMP_OLD + imp), (_VVCLS_OLD, "\n\n" + decl + _VVCLS_OLD), (_AV_OLD, av)] + ([(_LOOP_OLD, loop)] if loop else []) + ([(_VO_OLD, vo)] if vo else [])
+    return [V(name if i == 0 else "", kind, _V, old, new, rule if i == 0 else None) for i, (old, new) in enumerate(edits)]
+
 
 VARIANTS = [
     V("F21: every part of the lenient pattern independently optional", "break", _V, '(?:\\.(\\d+)(?:\\.(\\d+)(?:-(.+))?)?)?$")', '(?:\\.(\\d+))?(?:\\.(\\d+))?(?:-(.+))?$")', "O15.3"),
@@ -1684,6 +2116,30 @@ VARIANTS = [
       "            if branch := versions.best_match(git.branches(self.repo_dir, remote=False), distribution_version):\n"),
     V("remote flag attribute renamed consistently", "keep", _P, "self.remote", "self.has_remote", count=4),
     V("remote search not guarded by the remote flag", "break", _P, "            if self.remote:\n                branch = versions.best_match(", "            if not self.offline:\n                branch = versions.best_match(", "O15.4"),
+    # ---- typed data model (benign round 2): the evaluator maps NamedTuple / namedtuple / Enum / dataclass declarations to the real types
+    _typed("b8 shape: all_versions yields NamedTuple records, consumers read the fields by name", "keep", None, "from typing import NamedTuple\n", _NT_CLS,
+           _av_new("VersionVariant"), _loop_new('variant.version_type == "with_minor"'), _VO_NT),
+    _typed("NamedTuple records: minor variant labelled with_major and vice versa (fallback after the major test)", "break", "O15.1", "from typing import NamedTuple\n", _NT_CLS,
+           _av_new("VersionVariant", ('"with_suffix"', '"with_patch"', '"with_major"', '"with_minor"')), _loop_new('variant.version_type == "with_minor"'), _VO_NT),
+    _typed("NamedTuple records: matcher returns the kind field instead of the variant", "break", "O15.1", "from typing import NamedTuple\n", _NT_CLS,
+           _av_new("VersionVariant"), _loop_new('variant.version_type == "with_minor"').replace("return variant.version\n", "return variant.version_type\n"), _VO_NT),
+    _typed("records from collections.namedtuple (functional form)", "keep", None, "from collections import namedtuple\n",
+           'VersionVariant = namedtuple("VersionVariant", ["version", "version_type"])\n', _av_new("VersionVariant"), _loop_new('variant.version_type == "with_minor"'), _VO_NT),
+    _typed("kinds as members of a plain Enum, compared by identity", "keep", None, "from enum import Enum\n", _ENUM_CLS, _av_new("", _EK),
+           _LOOP_OLD.replace('version_type == "with_minor"', "version_type is VersionType.WITH_MINOR")),
+    _typed("Enum kinds: fallback tied to the WITH_MAJOR member", "break", "O15.1", "from enum import Enum\n", _ENUM_CLS, _av_new("", _EK),
+           _LOOP_OLD.replace('version_type == "with_minor"', "version_type is VersionType.WITH_MAJOR")),
+    _typed("plain Enum kinds still compared with the raw string (a member is not its value: the fallback never applies)", "break", "O15.1", "from enum import Enum\n", _ENUM_CLS, _av_new("", _EK)),
+    _typed("str-mixin Enum kinds compared with the raw string", "keep", None, "from enum import Enum\n", _ENUM_CLS.replace("(Enum)", "(str, Enum)"), _av_new("", _EK)),
+    [V("parsed branches as frozen dataclass records with an is_minor_branch property", "keep", _V, _IMP_OLD, _IMP_OLD + "import dataclasses\nfrom typing import Optional\n"),
+     V("", "keep", _V, _LB_OLD, _DC_HELPER)],
+    [V("dataclass records: is_minor_branch tests the minor by truthiness", "break", _V, _IMP_OLD, _IMP_OLD + "import dataclasses\nfrom typing import Optional\n", "O15."),
+     V("", "break", _V, _LB_OLD, _DC_HELPER.replace("return self.minor is not None and", "return self.minor and"))],
+    [V("dataclass records: components bound to the fields in the wrong order", "break", _V, _IMP_OLD, _IMP_OLD + "import dataclasses\nfrom typing import Optional\n", "O15.3"),
+     V("", "break", _V, _LB_OLD, _DC_HELPER.replace("    major: int\n    minor: Optional[int] = None\n", "    minor: Optional[int]\n    major: Optional[int] = None\n"))],
+    [V("search as sorted(map(itemgetter, filter(partial(...)))) + next(iter(...))", "keep", _V, _IMP_OLD, _IMP_OLD + "import operator\n"), V("", "keep", _V, _LB_OLD, _FP_HELPER)],
+    [V("itemgetter / partial search sorted ascending (farthest eligible minor)", "break", _V, _IMP_OLD, _IMP_OLD + "import operator\n", "O15.3"),
+     V("", "break", _V, _LB_OLD, _FP_HELPER.replace("reverse=True", "reverse=False"))],
     # preserving
     V("strictly smaller minors only", "keep", _V, "minor is not None and minor <= target_version.minor:", "minor is not None and minor < target_version.minor:"),
     V("nearest = max", "keep", _V, "    return min(eligible_minors, key=lambda x: abs(x - target_version.minor))", "    return max(eligible_minors)"),
